@@ -176,6 +176,9 @@ end subroutine sfk
     mod_case('functions/in-expression', '    do i=1,n\n      x(i) = 2.0*lin(x(i), y) - 1.0\n    end do', functions, 'inline-functions')
     mod_case('functions/in-condition', '    if (lin(x(1), y) > 0.) then\n      x(1) = lin(y, x(2))\n    end if', functions, 'inline-functions')
     mod_case('functions/both-kinds', '    x(1) = lin(sq(x(1)), y) + sq(lin(y, x(2)))', functions, 'inline-functions')
+    mod_case('functions/same-call-in-two-statements', '    do i=1,n\n      x(i) = 2.0*lin(x(i), 3.0) + lin(y, 2.0)\n      z(i, 1) = lin(x(i), 3.0) - 1.0\n    end do', functions, 'inline-functions')
+    mod_case('functions/repeated-identical-calls', '    x(1) = lin(y, 2.0) + lin(y, 2.0)*lin(x(2), y)\n    x(2) = lin(y, 2.0)\n    x(3) = lin(x(2), y) - lin(y, 2.0)', functions, 'inline-functions')
+    mod_case('elemental/same-call-in-two-statements', '    do i=1,n\n      x(i) = sq(x(i)) + sq(y)\n      z(i, 2) = sq(y)*sq(x(i))\n    end do', elemental, 'inline-elemental')
     mod_case('marked/whole-array', '    !$loki inline\n    call helper(n, x, y)\n    x(1) = x(1) + 1.0', marked, 'inline-marked')
     mod_case('marked/section', '    !$loki inline\n    call helper(n, z(:, 2), y)\n    !$loki inline\n    call helper(n, z(:, 1), 2.0)', marked, 'inline-marked')
     mod_case('marked/in-loop', '    do i=1,2\n      !$loki inline\n      call helper(n, z(:, i), y*i)\n    end do', marked, 'inline-marked')
